@@ -33,6 +33,10 @@ CLAIMED = {
             "deterministic simulation: an encoder node writes real transactions / inputs / outputs / receipts through a fault-injecting canonical::Output, a medium truncates, flips, overwrites, zeroes, concatenates and appends, a decoder node reads through a fault-injecting canonical::Input; no-panic, consumed == size, decode∘encode fixed point, errors never swallowed",
             "Seeded search over batches of records (all 6 transaction kinds from TransactionBuilder / constructors / TransactionFactory plus structural mutations, 7 input, 5 output, 13 receipt variants, policies and small types) crossed with explicit fault plans (torn write at byte k, truncation classes, bit flips, word overwrites aimed via a write-trace layout map at discriminants / length prefixes / counts / policy bits / index fields, zeroed block, concatenation, trailing garbage, wrong decoder, EOF at byte k, refused k-th read/skip/peek). Every Ok is checked for consumed == size() == to_bytes().len() and for decode(to_bytes()) == value; intact records must round-trip; a third of the runs is fault-free. Sampling, not enumeration: a clean batch is evidence, not proof.",
             "Trusted: SimInput/SimOutput/medium (≈ 250 lines), the layout map used only for aiming faults, PartialEq of the repository types between two decoded values. Not decided: which malformed byte strings must be rejected (the property only demands no panic and a fixed point); memory use of the decoder (reported as a probe: a length prefix below VEC_DECODE_LIMIT makes Vec::with_capacity reserve up to tens of GiB before any element is read)."),
+    "C23": ("mem", "DESIGN.md §6 C23, §4.4",
+            "deterministic simulation: 1–3 simulated tasks cycle real MemoryInstances through a simulated pool (dirty hand-out, reset on acquire) and run seeded histories of growth / access / copy / reset / snapshot+rollback / == on them, checked operation by operation against a sparse flat 64 MiB reference model",
+            "Seeded search over pool lives and operation histories (≤ 64 operations per history, 2 % of the runs at the 64 MiB limit); after every operation Ok/Err, bytes read, zero content of newly allocated heap, overlap refusal, the HP register and a sampled sweep of all region borders are compared with the flatmem model, a fresh twin instance shadows every reused instance, and rollbacks are compared with the snapshot. Sampling, not enumeration: a clean batch is evidence, not proof.",
+            "Trusted: the ~300-line flatmem model (accessibility rule end ≤ stack_hwm ∨ start ≥ hp, zero on (re)exposure), the pool discipline copied from Interpreter::init_inner (reset + HP := VM_MAX_RAM), the hooked OwnershipRegisters constructor. Empty ranges strictly inside the gap and ownership refusals are not judged. Known finding F-4 (collect_rollback_data panics when the snapshot's stack extent is above the current one) is listed in known_findings.json."),
 }
 
 SMT_NOTE = "Trusted: the ~150-line compact-SMT reference (root/prove/verify by recursion on the bit index), SimKV's crash model (one atomic batch per completed tree operation), SHA-256 from the sha2 crate, collision resistance."
